@@ -790,10 +790,12 @@ package lnwire
 //@   site call WritePublicKey nth 5 as layout-enc-16-FirstCommitmentPoint: assert arg(1) == o.FirstCommitmentPoint && called(WritePublicKey, 4)
 //@   site call WriteFundingFlag nth 0 as layout-enc-17-ChannelFlags: assert arg(1) == o.ChannelFlags && called(WritePublicKey, 5)
 //@   site call WriteBytes nth 2 as layout-enc-18-ExtraData: assert arg(1) == o.ExtraData && called(WriteFundingFlag, 0)
+//@   ensures result == nil ==> called(WriteBytes, 2)
 //@
 //@ func (o *OpenChannel) Decode
 //@   site call ReadElements nth 0 as layout-dec-0: assert len(arg(1)) == 18 && dyndata(arg(1)[0]) == boxof(sliceof(o.ChainHash)) && dyndata(arg(1)[1]) == boxof(sliceof(o.PendingChannelID)) && dyndata(arg(1)[2]) == addr(o.FundingAmount) && dyndata(arg(1)[3]) == addr(o.PushAmount) && dyndata(arg(1)[4]) == addr(o.DustLimit) && dyndata(arg(1)[5]) == addr(o.MaxValueInFlight) && dyndata(arg(1)[6]) == addr(o.ChannelReserve) && dyndata(arg(1)[7]) == addr(o.HtlcMinimum) && dyndata(arg(1)[8]) == addr(o.FeePerKiloWeight) && dyndata(arg(1)[9]) == addr(o.CsvDelay) && dyndata(arg(1)[10]) == addr(o.MaxAcceptedHTLCs) && dyndata(arg(1)[11]) == addr(o.FundingKey) && dyndata(arg(1)[12]) == addr(o.RevocationPoint) && dyndata(arg(1)[13]) == addr(o.PaymentPoint) && dyndata(arg(1)[14]) == addr(o.DelayedPaymentPoint) && dyndata(arg(1)[15]) == addr(o.HtlcPoint) && dyndata(arg(1)[16]) == addr(o.FirstCommitmentPoint) && dyndata(arg(1)[17]) == addr(o.ChannelFlags)
 //@   site call ReadElements nth 1 as layout-dec-1: assert len(arg(1)) == 1 && called(ReadElements, 0)
+//@   ensures result == nil ==> called(ReadElements, 1)
 //@
 //@ // BOLT 2 accept_channel
 //@ func (a *AcceptChannel) Encode
@@ -814,10 +816,12 @@ package lnwire
 //@   site call WritePublicKey nth 4 as layout-enc-12-HtlcPoint: assert arg(1) == a.HtlcPoint && called(WritePublicKey, 3)
 //@   site call WritePublicKey nth 5 as layout-enc-13-FirstCommitmentPoint: assert arg(1) == a.FirstCommitmentPoint && called(WritePublicKey, 4)
 //@   site call WriteBytes nth 1 as layout-enc-14-ExtraData: assert arg(1) == a.ExtraData && called(WritePublicKey, 5)
+//@   ensures result == nil ==> called(WriteBytes, 1)
 //@
 //@ func (a *AcceptChannel) Decode
 //@   site call ReadElements nth 0 as layout-dec-0: assert len(arg(1)) == 14 && dyndata(arg(1)[0]) == boxof(sliceof(a.PendingChannelID)) && dyndata(arg(1)[1]) == addr(a.DustLimit) && dyndata(arg(1)[2]) == addr(a.MaxValueInFlight) && dyndata(arg(1)[3]) == addr(a.ChannelReserve) && dyndata(arg(1)[4]) == addr(a.HtlcMinimum) && dyndata(arg(1)[5]) == addr(a.MinAcceptDepth) && dyndata(arg(1)[6]) == addr(a.CsvDelay) && dyndata(arg(1)[7]) == addr(a.MaxAcceptedHTLCs) && dyndata(arg(1)[8]) == addr(a.FundingKey) && dyndata(arg(1)[9]) == addr(a.RevocationPoint) && dyndata(arg(1)[10]) == addr(a.PaymentPoint) && dyndata(arg(1)[11]) == addr(a.DelayedPaymentPoint) && dyndata(arg(1)[12]) == addr(a.HtlcPoint) && dyndata(arg(1)[13]) == addr(a.FirstCommitmentPoint)
 //@   site call ReadElements nth 1 as layout-dec-1: assert len(arg(1)) == 1 && called(ReadElements, 0)
+//@   ensures result == nil ==> called(ReadElements, 1)
 //@
 //@ // BOLT 2 funding_created
 //@ func (f *FundingCreated) Encode
@@ -827,10 +831,12 @@ package lnwire
 //@   site call WriteOutPoint nth 0 as layout-enc-1-FundingPoint: assert arg(1) == f.FundingPoint && called(WriteBytes, 0)
 //@   site call WriteSig nth 0 as layout-enc-2-CommitSig: assert arg(1) == f.CommitSig && called(WriteOutPoint, 0)
 //@   site call WriteBytes nth 1 as layout-enc-3-ExtraData: assert arg(1) == f.ExtraData && called(WriteSig, 0)
+//@   ensures result == nil ==> called(WriteBytes, 1)
 //@
 //@ func (f *FundingCreated) Decode
 //@   site call ReadElements nth 0 as layout-dec-0: assert len(arg(1)) == 3 && dyndata(arg(1)[0]) == boxof(sliceof(f.PendingChannelID)) && dyndata(arg(1)[1]) == addr(f.FundingPoint) && dyndata(arg(1)[2]) == addr(f.CommitSig)
 //@   site call ReadElements nth 1 as layout-dec-1: assert len(arg(1)) == 1 && called(ReadElements, 0)
+//@   ensures result == nil ==> called(ReadElements, 1)
 //@
 //@ // BOLT 2 funding_signed
 //@ func (f *FundingSigned) Encode
@@ -839,10 +845,12 @@ package lnwire
 //@   site call WriteChannelID nth 0 as layout-enc-0-ChanID: assert arg(1) == f.ChanID
 //@   site call WriteSig nth 0 as layout-enc-1-CommitSig: assert arg(1) == f.CommitSig && called(WriteChannelID, 0)
 //@   site call WriteBytes nth 0 as layout-enc-2-ExtraData: assert arg(1) == f.ExtraData && called(WriteSig, 0)
+//@   ensures result == nil ==> called(WriteBytes, 0)
 //@
 //@ func (f *FundingSigned) Decode
 //@   site call ReadElements nth 0 as layout-dec-0: assert len(arg(1)) == 2 && dyndata(arg(1)[0]) == addr(f.ChanID) && dyndata(arg(1)[1]) == addr(f.CommitSig)
 //@   site call ReadElements nth 1 as layout-dec-1: assert len(arg(1)) == 1 && called(ReadElements, 0)
+//@   ensures result == nil ==> called(ReadElements, 1)
 //@
 //@ // BOLT 2 channel_ready
 //@ func (c *ChannelReady) Encode
@@ -851,10 +859,12 @@ package lnwire
 //@   site call WriteChannelID nth 0 as layout-enc-0-ChanID: assert arg(1) == c.ChanID
 //@   site call WritePublicKey nth 0 as layout-enc-1-NextPerCommitmentPoint: assert arg(1) == c.NextPerCommitmentPoint && called(WriteChannelID, 0)
 //@   site call WriteBytes nth 0 as layout-enc-2-ExtraData: assert arg(1) == c.ExtraData && called(WritePublicKey, 0)
+//@   ensures result == nil ==> called(WriteBytes, 0)
 //@
 //@ func (c *ChannelReady) Decode
 //@   site call ReadElements nth 0 as layout-dec-0: assert len(arg(1)) == 2 && dyndata(arg(1)[0]) == addr(c.ChanID) && dyndata(arg(1)[1]) == addr(c.NextPerCommitmentPoint)
 //@   site call ReadElements nth 1 as layout-dec-1: assert len(arg(1)) == 1 && called(ReadElements, 0)
+//@   ensures result == nil ==> called(ReadElements, 1)
 //@
 //@ // BOLT 2 shutdown
 //@ func (s *Shutdown) Encode
@@ -863,10 +873,12 @@ package lnwire
 //@   site call WriteChannelID nth 0 as layout-enc-0-ChannelID: assert arg(1) == s.ChannelID
 //@   site call WriteDeliveryAddress nth 0 as layout-enc-1-Address: assert arg(1) == s.Address && called(WriteChannelID, 0)
 //@   site call WriteBytes nth 0 as layout-enc-2-ExtraData: assert called(WriteDeliveryAddress, 0)
+//@   ensures result == nil ==> called(WriteBytes, 0)
 //@
 //@ func (s *Shutdown) Decode
 //@   site call ReadElements nth 0 as layout-dec-0: assert len(arg(1)) == 2 && dyndata(arg(1)[0]) == addr(s.ChannelID) && dyndata(arg(1)[1]) == addr(s.Address)
 //@   site call ReadElements nth 1 as layout-dec-1: assert len(arg(1)) == 1 && called(ReadElements, 0)
+//@   ensures result == nil ==> called(ReadElements, 1)
 //@
 //@ // BOLT 2 closing_signed
 //@ func (c *ClosingSigned) Encode
@@ -876,10 +888,12 @@ package lnwire
 //@   site call WriteSatoshi nth 0 as layout-enc-1-FeeSatoshis: assert arg(1) == c.FeeSatoshis && called(WriteChannelID, 0)
 //@   site call WriteSig nth 0 as layout-enc-2-Signature: assert arg(1) == c.Signature && called(WriteSatoshi, 0)
 //@   site call WriteBytes nth 0 as layout-enc-3-ExtraData: assert arg(1) == c.ExtraData && called(WriteSig, 0)
+//@   ensures result == nil ==> called(WriteBytes, 0)
 //@
 //@ func (c *ClosingSigned) Decode
 //@   site call ReadElements nth 0 as layout-dec-0: assert len(arg(1)) == 3 && dyndata(arg(1)[0]) == addr(c.ChannelID) && dyndata(arg(1)[1]) == addr(c.FeeSatoshis) && dyndata(arg(1)[2]) == addr(c.Signature)
 //@   site call ReadElements nth 1 as layout-dec-1: assert len(arg(1)) == 1 && called(ReadElements, 0)
+//@   ensures result == nil ==> called(ReadElements, 1)
 //@
 //@ // BOLT 2 closing_complete
 //@ func (c *ClosingComplete) Encode
@@ -891,10 +905,12 @@ package lnwire
 //@   site call WriteSatoshi nth 0 as layout-enc-3-FeeSatoshis: assert arg(1) == c.FeeSatoshis && called(WriteDeliveryAddress, 1)
 //@   site call WriteUint32 nth 0 as layout-enc-4-LockTime: assert arg(1) == c.LockTime && called(WriteSatoshi, 0)
 //@   site call WriteBytes nth 0 as layout-enc-5-ExtraData: assert arg(1) == c.ExtraData && called(WriteUint32, 0)
+//@   ensures result == nil ==> called(WriteBytes, 0)
 //@
 //@ func (c *ClosingComplete) Decode
 //@   site call ReadElements nth 0 as layout-dec-0: assert len(arg(1)) == 5 && dyndata(arg(1)[0]) == addr(c.ChannelID) && dyndata(arg(1)[1]) == addr(c.CloserScript) && dyndata(arg(1)[2]) == addr(c.CloseeScript) && dyndata(arg(1)[3]) == addr(c.FeeSatoshis) && dyndata(arg(1)[4]) == addr(c.LockTime)
 //@   site call ReadElements nth 1 as layout-dec-1: assert len(arg(1)) == 1 && called(ReadElements, 0)
+//@   ensures result == nil ==> called(ReadElements, 1)
 //@
 //@ // BOLT 2 closing_sig
 //@ func (c *ClosingSig) Encode
@@ -906,10 +922,12 @@ package lnwire
 //@   site call WriteSatoshi nth 0 as layout-enc-3-FeeSatoshis: assert arg(1) == c.FeeSatoshis && called(WriteDeliveryAddress, 1)
 //@   site call WriteUint32 nth 0 as layout-enc-4-LockTime: assert arg(1) == c.LockTime && called(WriteSatoshi, 0)
 //@   site call WriteBytes nth 0 as layout-enc-5-ExtraData: assert arg(1) == c.ExtraData && called(WriteUint32, 0)
+//@   ensures result == nil ==> called(WriteBytes, 0)
 //@
 //@ func (c *ClosingSig) Decode
 //@   site call ReadElements nth 0 as layout-dec-0: assert len(arg(1)) == 5 && dyndata(arg(1)[0]) == addr(c.ChannelID) && dyndata(arg(1)[1]) == addr(c.CloserScript) && dyndata(arg(1)[2]) == addr(c.CloseeScript) && dyndata(arg(1)[3]) == addr(c.FeeSatoshis) && dyndata(arg(1)[4]) == addr(c.LockTime)
 //@   site call ReadElements nth 1 as layout-dec-1: assert len(arg(1)) == 1 && called(ReadElements, 0)
+//@   ensures result == nil ==> called(ReadElements, 1)
 //@
 //@ // BOLT 2 update_add_htlc
 //@ func (c *UpdateAddHTLC) Encode
@@ -922,9 +940,11 @@ package lnwire
 //@   site call WriteUint32 nth 0 as layout-enc-4-Expiry: assert arg(1) == c.Expiry && called(WriteBytes, 0)
 //@   site call WriteBytes nth 1 as layout-enc-5-OnionBlob: assert arg(1) == sliceof(c.OnionBlob) && called(WriteUint32, 0)
 //@   site call WriteBytes nth 2 as layout-enc-6-ExtraData: assert called(WriteBytes, 1)
+//@   ensures result == nil ==> called(WriteBytes, 2)
 //@
 //@ func (c *UpdateAddHTLC) Decode
 //@   site call ReadElements nth 0 as layout-dec-0: assert len(arg(1)) == 7 && dyndata(arg(1)[0]) == addr(c.ChanID) && dyndata(arg(1)[1]) == addr(c.ID) && dyndata(arg(1)[2]) == addr(c.Amount) && dyndata(arg(1)[3]) == boxof(sliceof(c.PaymentHash)) && dyndata(arg(1)[4]) == addr(c.Expiry) && dyndata(arg(1)[5]) == boxof(sliceof(c.OnionBlob))
+//@   ensures result == nil ==> called(ReadElements, 0)
 //@
 //@ // BOLT 2 update_fulfill_htlc
 //@ func (c *UpdateFulfillHTLC) Encode
@@ -934,9 +954,11 @@ package lnwire
 //@   site call WriteUint64 nth 0 as layout-enc-1-ID: assert arg(1) == c.ID && called(WriteChannelID, 0)
 //@   site call WriteBytes nth 0 as layout-enc-2-PaymentPreimage: assert arg(1) == sliceof(c.PaymentPreimage) && called(WriteUint64, 0)
 //@   site call WriteBytes nth 1 as layout-enc-3-ExtraData: assert called(WriteBytes, 0)
+//@   ensures result == nil ==> called(WriteBytes, 1)
 //@
 //@ func (c *UpdateFulfillHTLC) Decode
 //@   site call ReadElements nth 0 as layout-dec-0: assert len(arg(1)) == 4 && dyndata(arg(1)[0]) == addr(c.ChanID) && dyndata(arg(1)[1]) == addr(c.ID) && dyndata(arg(1)[2]) == boxof(sliceof(c.PaymentPreimage))
+//@   ensures result == nil ==> called(ReadElements, 0)
 //@
 //@ // BOLT 2 update_fail_htlc
 //@ func (c *UpdateFailHTLC) Encode
@@ -946,9 +968,11 @@ package lnwire
 //@   site call WriteUint64 nth 0 as layout-enc-1-ID: assert arg(1) == c.ID && called(WriteChannelID, 0)
 //@   site call WriteOpaqueReason nth 0 as layout-enc-2-Reason: assert arg(1) == c.Reason && called(WriteUint64, 0)
 //@   site call WriteBytes nth 0 as layout-enc-3-ExtraData: assert arg(1) == c.ExtraData && called(WriteOpaqueReason, 0)
+//@   ensures result == nil ==> called(WriteBytes, 0)
 //@
 //@ func (c *UpdateFailHTLC) Decode
 //@   site call ReadElements nth 0 as layout-dec-0: assert len(arg(1)) == 4 && dyndata(arg(1)[0]) == addr(c.ChanID) && dyndata(arg(1)[1]) == addr(c.ID) && dyndata(arg(1)[2]) == addr(c.Reason) && dyndata(arg(1)[3]) == addr(c.ExtraData)
+//@   ensures result == nil ==> called(ReadElements, 0)
 //@
 //@ // BOLT 2 update_fail_malformed_htlc
 //@ func (c *UpdateFailMalformedHTLC) Encode
@@ -959,9 +983,11 @@ package lnwire
 //@   site call WriteBytes nth 0 as layout-enc-2-ShaOnionBlob: assert arg(1) == sliceof(c.ShaOnionBlob) && called(WriteUint64, 0)
 //@   site call WriteFailCode nth 0 as layout-enc-3-FailureCode: assert arg(1) == c.FailureCode && called(WriteBytes, 0)
 //@   site call WriteBytes nth 1 as layout-enc-4-ExtraData: assert arg(1) == c.ExtraData && called(WriteFailCode, 0)
+//@   ensures result == nil ==> called(WriteBytes, 1)
 //@
 //@ func (c *UpdateFailMalformedHTLC) Decode
 //@   site call ReadElements nth 0 as layout-dec-0: assert len(arg(1)) == 5 && dyndata(arg(1)[0]) == addr(c.ChanID) && dyndata(arg(1)[1]) == addr(c.ID) && dyndata(arg(1)[2]) == boxof(sliceof(c.ShaOnionBlob)) && dyndata(arg(1)[3]) == addr(c.FailureCode) && dyndata(arg(1)[4]) == addr(c.ExtraData)
+//@   ensures result == nil ==> called(ReadElements, 0)
 //@
 //@ // BOLT 2 commitment_signed
 //@ func (c *CommitSig) Encode
@@ -971,9 +997,11 @@ package lnwire
 //@   site call WriteSig nth 0 as layout-enc-1-CommitSig: assert arg(1) == c.CommitSig && called(WriteChannelID, 0)
 //@   site call WriteSigs nth 0 as layout-enc-2-HtlcSigs: assert arg(1) == c.HtlcSigs && called(WriteSig, 0)
 //@   site call WriteBytes nth 0 as layout-enc-3-ExtraData: assert called(WriteSigs, 0)
+//@   ensures result == nil ==> called(WriteBytes, 0)
 //@
 //@ func (c *CommitSig) Decode
 //@   site call ReadElements nth 0 as layout-dec-0: assert len(arg(1)) == 4 && dyndata(arg(1)[0]) == addr(c.ChanID) && dyndata(arg(1)[1]) == addr(c.CommitSig) && dyndata(arg(1)[2]) == addr(c.HtlcSigs)
+//@   ensures result == nil ==> called(ReadElements, 0)
 //@
 //@ // BOLT 2 revoke_and_ack
 //@ func (c *RevokeAndAck) Encode
@@ -983,10 +1011,12 @@ package lnwire
 //@   site call WriteBytes nth 0 as layout-enc-1-Revocation: assert arg(1) == sliceof(c.Revocation) && called(WriteChannelID, 0)
 //@   site call WritePublicKey nth 0 as layout-enc-2-NextRevocationKey: assert arg(1) == c.NextRevocationKey && called(WriteBytes, 0)
 //@   site call WriteBytes nth 1 as layout-enc-3-ExtraData: assert arg(1) == c.ExtraData && called(WritePublicKey, 0)
+//@   ensures result == nil ==> called(WriteBytes, 1)
 //@
 //@ func (c *RevokeAndAck) Decode
 //@   site call ReadElements nth 0 as layout-dec-0: assert len(arg(1)) == 3 && dyndata(arg(1)[0]) == addr(c.ChanID) && dyndata(arg(1)[1]) == boxof(sliceof(c.Revocation)) && dyndata(arg(1)[2]) == addr(c.NextRevocationKey)
 //@   site call ReadElements nth 1 as layout-dec-1: assert len(arg(1)) == 1 && called(ReadElements, 0)
+//@   ensures result == nil ==> called(ReadElements, 1)
 //@
 //@ // BOLT 2 update_fee
 //@ func (c *UpdateFee) Encode
@@ -995,9 +1025,11 @@ package lnwire
 //@   site call WriteChannelID nth 0 as layout-enc-0-ChanID: assert arg(1) == c.ChanID
 //@   site call WriteUint32 nth 0 as layout-enc-1-FeePerKw: assert arg(1) == c.FeePerKw && called(WriteChannelID, 0)
 //@   site call WriteBytes nth 0 as layout-enc-2-ExtraData: assert arg(1) == c.ExtraData && called(WriteUint32, 0)
+//@   ensures result == nil ==> called(WriteBytes, 0)
 //@
 //@ func (c *UpdateFee) Decode
 //@   site call ReadElements nth 0 as layout-dec-0: assert len(arg(1)) == 3 && dyndata(arg(1)[0]) == addr(c.ChanID) && dyndata(arg(1)[1]) == addr(c.FeePerKw) && dyndata(arg(1)[2]) == addr(c.ExtraData)
+//@   ensures result == nil ==> called(ReadElements, 0)
 //@
 //@ // BOLT 2 channel_reestablish
 //@ func (a *ChannelReestablish) Encode
@@ -1023,9 +1055,11 @@ package lnwire
 //@   site call WriteChannelID nth 0 as layout-enc-0-ChanID: assert arg(1) == s.ChanID
 //@   site call WriteBool nth 0 as layout-enc-1-Initiator: assert arg(1) == s.Initiator && called(WriteChannelID, 0)
 //@   site call WriteBytes nth 0 as layout-enc-2-ExtraData: assert arg(1) == s.ExtraData && called(WriteBool, 0)
+//@   ensures result == nil ==> called(WriteBytes, 0)
 //@
 //@ func (s *Stfu) Decode
 //@   site call ReadElements nth 0 as layout-dec-0: assert len(arg(1)) == 3 && dyndata(arg(1)[0]) == addr(s.ChanID) && dyndata(arg(1)[1]) == addr(s.Initiator) && dyndata(arg(1)[2]) == addr(s.ExtraData)
+//@   ensures result == nil ==> called(ReadElements, 0)
 //@
 //@ // BOLT 7 announcement_signatures
 //@ func (a *AnnounceSignatures1) Encode
@@ -1036,9 +1070,11 @@ package lnwire
 //@   site call WriteSig nth 0 as layout-enc-2-NodeSignature: assert arg(1) == a.NodeSignature && called(WriteShortChannelID, 0)
 //@   site call WriteSig nth 1 as layout-enc-3-BitcoinSignature: assert arg(1) == a.BitcoinSignature && called(WriteSig, 0)
 //@   site call WriteBytes nth 0 as layout-enc-4-ExtraOpaqueData: assert arg(1) == a.ExtraOpaqueData && called(WriteSig, 1)
+//@   ensures result == nil ==> called(WriteBytes, 0)
 //@
 //@ func (a *AnnounceSignatures1) Decode
 //@   site call ReadElements nth 0 as layout-dec-0: assert len(arg(1)) == 5 && dyndata(arg(1)[0]) == addr(a.ChannelID) && dyndata(arg(1)[1]) == addr(a.ShortChannelID) && dyndata(arg(1)[2]) == addr(a.NodeSignature) && dyndata(arg(1)[3]) == addr(a.BitcoinSignature) && dyndata(arg(1)[4]) == addr(a.ExtraOpaqueData)
+//@   ensures result == nil ==> called(ReadElements, 0)
 //@
 //@ // BOLT 7 channel_announcement
 //@ func (a *ChannelAnnouncement1) Encode
@@ -1056,9 +1092,11 @@ package lnwire
 //@   site call WriteBytes nth 3 as layout-enc-9-BitcoinKey1: assert arg(1) == sliceof(a.BitcoinKey1) && called(WriteBytes, 2)
 //@   site call WriteBytes nth 4 as layout-enc-10-BitcoinKey2: assert arg(1) == sliceof(a.BitcoinKey2) && called(WriteBytes, 3)
 //@   site call WriteBytes nth 5 as layout-enc-11-ExtraOpaqueData: assert arg(1) == a.ExtraOpaqueData && called(WriteBytes, 4)
+//@   ensures result == nil ==> called(WriteBytes, 5)
 //@
 //@ func (a *ChannelAnnouncement1) Decode
 //@   site call ReadElements nth 0 as layout-dec-0: assert len(arg(1)) == 12 && dyndata(arg(1)[0]) == addr(a.NodeSig1) && dyndata(arg(1)[1]) == addr(a.NodeSig2) && dyndata(arg(1)[2]) == addr(a.BitcoinSig1) && dyndata(arg(1)[3]) == addr(a.BitcoinSig2) && dyndata(arg(1)[4]) == addr(a.Features) && dyndata(arg(1)[5]) == boxof(sliceof(a.ChainHash)) && dyndata(arg(1)[6]) == addr(a.ShortChannelID) && dyndata(arg(1)[7]) == addr(a.NodeID1) && dyndata(arg(1)[8]) == addr(a.NodeID2) && dyndata(arg(1)[9]) == addr(a.BitcoinKey1) && dyndata(arg(1)[10]) == addr(a.BitcoinKey2) && dyndata(arg(1)[11]) == addr(a.ExtraOpaqueData)
+//@   ensures result == nil ==> called(ReadElements, 0)
 //@
 //@ // BOLT 7 node_announcement
 //@ func (a *NodeAnnouncement1) Encode
@@ -1072,9 +1110,11 @@ package lnwire
 //@   site call WriteNodeAlias nth 0 as layout-enc-5-Alias: assert arg(1) == a.Alias && called(WriteColorRGBA, 0)
 //@   site call WriteNetAddrs nth 0 as layout-enc-6-Addresses: assert arg(1) == a.Addresses && called(WriteNodeAlias, 0)
 //@   site call WriteBytes nth 1 as layout-enc-7-ExtraOpaqueData: assert arg(1) == a.ExtraOpaqueData && called(WriteNetAddrs, 0)
+//@   ensures result == nil ==> called(WriteBytes, 1)
 //@
 //@ func (a *NodeAnnouncement1) Decode
 //@   site call ReadElements nth 0 as layout-dec-0: assert len(arg(1)) == 8 && dyndata(arg(1)[0]) == addr(a.Signature) && dyndata(arg(1)[1]) == addr(a.Features) && dyndata(arg(1)[2]) == addr(a.Timestamp) && dyndata(arg(1)[3]) == addr(a.NodeID) && dyndata(arg(1)[4]) == addr(a.RGBColor) && dyndata(arg(1)[5]) == addr(a.Alias) && dyndata(arg(1)[6]) == addr(a.Addresses) && dyndata(arg(1)[7]) == addr(a.ExtraOpaqueData)
+//@   ensures result == nil ==> called(ReadElements, 0)
 //@
 //@ // BOLT 7 channel_update
 //@ func (a *ChannelUpdate1) Encode
@@ -1092,11 +1132,13 @@ package lnwire
 //@   site call WriteUint32 nth 2 as layout-enc-9-FeeRate: assert arg(1) == a.FeeRate && called(WriteUint32, 1)
 //@   site call WriteMilliSatoshi nth 1 as layout-enc-10-HtlcMaximumMsat: assert arg(1) == a.HtlcMaximumMsat && called(WriteUint32, 2)
 //@   site call WriteBytes nth 1 as layout-enc-11-ExtraOpaqueData: assert arg(1) == a.ExtraOpaqueData && called(WriteUint32, 2)
+//@   ensures result == nil ==> called(WriteBytes, 1)
 //@
 //@ func (a *ChannelUpdate1) Decode
 //@   site call ReadElements nth 0 as layout-dec-0: assert len(arg(1)) == 10 && dyndata(arg(1)[0]) == addr(a.Signature) && dyndata(arg(1)[1]) == boxof(sliceof(a.ChainHash)) && dyndata(arg(1)[2]) == addr(a.ShortChannelID) && dyndata(arg(1)[3]) == addr(a.Timestamp) && dyndata(arg(1)[4]) == addr(a.MessageFlags) && dyndata(arg(1)[5]) == addr(a.ChannelFlags) && dyndata(arg(1)[6]) == addr(a.TimeLockDelta) && dyndata(arg(1)[7]) == addr(a.HtlcMinimumMsat) && dyndata(arg(1)[8]) == addr(a.BaseFee) && dyndata(arg(1)[9]) == addr(a.FeeRate)
 //@   site call ReadElements nth 1 as layout-dec-1: assert len(arg(1)) == 1 && dyndata(arg(1)[0]) == addr(a.HtlcMaximumMsat) && called(ReadElements, 0)
 //@   site call ReadElements nth 2 as layout-dec-2: assert len(arg(1)) == 1 && called(ReadElements, 0)
+//@   ensures result == nil ==> called(ReadElements, 2)
 //@
 //@ // BOLT 7 query_short_channel_ids
 //@ func (q *QueryShortChanIDs) Encode
@@ -1104,9 +1146,11 @@ package lnwire
 //@   loop * havoc
 //@   site call WriteBytes nth 0 as layout-enc-0-ChainHash: assert arg(1) == sliceof(q.ChainHash)
 //@   site call WriteBytes nth 1 as layout-enc-1-ExtraData: assert arg(1) == q.ExtraData && called(WriteBytes, 0)
+//@   ensures result == nil ==> called(WriteBytes, 1)
 //@
 //@ func (q *QueryShortChanIDs) Decode
 //@   site call ReadElements nth 0 as layout-dec-0: assert len(arg(1)) == 1 && dyndata(arg(1)[0]) == boxof(sliceof(q.ChainHash))
+//@   ensures result == nil ==> called(ReadElements, 0)
 //@
 //@ // BOLT 7 reply_short_channel_ids_end
 //@ func (c *ReplyShortChanIDsEnd) Encode
@@ -1115,9 +1159,11 @@ package lnwire
 //@   site call WriteBytes nth 0 as layout-enc-0-ChainHash: assert arg(1) == sliceof(c.ChainHash)
 //@   site call WriteUint8 nth 0 as layout-enc-1-Complete: assert arg(1) == c.Complete && called(WriteBytes, 0)
 //@   site call WriteBytes nth 1 as layout-enc-2-ExtraData: assert arg(1) == c.ExtraData && called(WriteUint8, 0)
+//@   ensures result == nil ==> called(WriteBytes, 1)
 //@
 //@ func (c *ReplyShortChanIDsEnd) Decode
 //@   site call ReadElements nth 0 as layout-dec-0: assert len(arg(1)) == 3 && dyndata(arg(1)[0]) == boxof(sliceof(c.ChainHash)) && dyndata(arg(1)[1]) == addr(c.Complete) && dyndata(arg(1)[2]) == addr(c.ExtraData)
+//@   ensures result == nil ==> called(ReadElements, 0)
 //@
 //@ // BOLT 7 query_channel_range
 //@ func (q *QueryChannelRange) Encode
@@ -1127,10 +1173,12 @@ package lnwire
 //@   site call WriteUint32 nth 0 as layout-enc-1-FirstBlockHeight: assert arg(1) == q.FirstBlockHeight && called(WriteBytes, 0)
 //@   site call WriteUint32 nth 1 as layout-enc-2-NumBlocks: assert arg(1) == q.NumBlocks && called(WriteUint32, 0)
 //@   site call WriteBytes nth 1 as layout-enc-3-ExtraData: assert arg(1) == q.ExtraData && called(WriteUint32, 1)
+//@   ensures result == nil ==> called(WriteBytes, 1)
 //@
 //@ func (q *QueryChannelRange) Decode
 //@   site call ReadElements nth 0 as layout-dec-0: assert len(arg(1)) == 3 && dyndata(arg(1)[0]) == boxof(sliceof(q.ChainHash)) && dyndata(arg(1)[1]) == addr(q.FirstBlockHeight) && dyndata(arg(1)[2]) == addr(q.NumBlocks)
 //@   site call ReadElements nth 1 as layout-dec-1: assert len(arg(1)) == 1 && called(ReadElements, 0)
+//@   ensures result == nil ==> called(ReadElements, 1)
 //@
 //@ // BOLT 7 reply_channel_range
 //@ func (c *ReplyChannelRange) Encode
@@ -1141,10 +1189,12 @@ package lnwire
 //@   site call WriteUint32 nth 1 as layout-enc-2-NumBlocks: assert arg(1) == c.NumBlocks && called(WriteUint32, 0)
 //@   site call WriteUint8 nth 0 as layout-enc-3-Complete: assert arg(1) == c.Complete && called(WriteUint32, 1)
 //@   site call WriteBytes nth 1 as layout-enc-4-ExtraData: assert arg(1) == c.ExtraData && called(WriteUint8, 0)
+//@   ensures result == nil ==> called(WriteBytes, 1)
 //@
 //@ func (c *ReplyChannelRange) Decode
 //@   site call ReadElements nth 0 as layout-dec-0: assert len(arg(1)) == 4 && dyndata(arg(1)[0]) == boxof(sliceof(c.ChainHash)) && dyndata(arg(1)[1]) == addr(c.FirstBlockHeight) && dyndata(arg(1)[2]) == addr(c.NumBlocks) && dyndata(arg(1)[3]) == addr(c.Complete)
 //@   site call ReadElements nth 1 as layout-dec-1: assert len(arg(1)) == 1 && called(ReadElements, 0)
+//@   ensures result == nil ==> called(ReadElements, 1)
 //@
 //@ // BOLT 7 gossip_timestamp_filter
 //@ func (g *GossipTimestampRange) Encode
@@ -1154,10 +1204,12 @@ package lnwire
 //@   site call WriteUint32 nth 0 as layout-enc-1-FirstTimestamp: assert arg(1) == g.FirstTimestamp && called(WriteBytes, 0)
 //@   site call WriteUint32 nth 1 as layout-enc-2-TimestampRange: assert arg(1) == g.TimestampRange && called(WriteUint32, 0)
 //@   site call WriteBytes nth 1 as layout-enc-3-ExtraData: assert arg(1) == g.ExtraData && called(WriteUint32, 1)
+//@   ensures result == nil ==> called(WriteBytes, 1)
 //@
 //@ func (g *GossipTimestampRange) Decode
 //@   site call ReadElements nth 0 as layout-dec-0: assert len(arg(1)) == 3 && dyndata(arg(1)[0]) == boxof(sliceof(g.ChainHash)) && dyndata(arg(1)[1]) == addr(g.FirstTimestamp) && dyndata(arg(1)[2]) == addr(g.TimestampRange)
 //@   site call ReadElements nth 1 as layout-dec-1: assert len(arg(1)) == 1 && called(ReadElements, 0)
+//@   ensures result == nil ==> called(ReadElements, 1)
 //@
 //@ // BOLT 1 init
 //@ func (msg *Init) Encode
@@ -1166,9 +1218,11 @@ package lnwire
 //@   site call WriteRawFeatureVector nth 0 as layout-enc-0-GlobalFeatures: assert arg(1) == msg.GlobalFeatures
 //@   site call WriteRawFeatureVector nth 1 as layout-enc-1-Features: assert arg(1) == msg.Features && called(WriteRawFeatureVector, 0)
 //@   site call WriteBytes nth 0 as layout-enc-2-ExtraData: assert called(WriteRawFeatureVector, 1)
+//@   ensures result == nil ==> called(WriteBytes, 0)
 //@
 //@ func (msg *Init) Decode
 //@   site call ReadElements nth 0 as layout-dec-0: assert len(arg(1)) == 3 && dyndata(arg(1)[0]) == addr(msg.GlobalFeatures) && dyndata(arg(1)[1]) == addr(msg.Features)
+//@   ensures result == nil ==> called(ReadElements, 0)
 //@
 //@ // BOLT 1 error
 //@ func (c *Error) Encode
@@ -1176,9 +1230,11 @@ package lnwire
 //@   loop * havoc
 //@   site call WriteBytes nth 0 as layout-enc-0-ChanID: assert arg(1) == sliceof(c.ChanID)
 //@   site call WriteErrorData nth 0 as layout-enc-1-Data: assert arg(1) == c.Data && called(WriteBytes, 0)
+//@   ensures result == nil ==> called(WriteErrorData, 0)
 //@
 //@ func (c *Error) Decode
 //@   site call ReadElements nth 0 as layout-dec-0: assert len(arg(1)) == 2 && dyndata(arg(1)[0]) == addr(c.ChanID) && dyndata(arg(1)[1]) == addr(c.Data)
+//@   ensures result == nil ==> called(ReadElements, 0)
 //@
 //@ // BOLT 1 warning
 //@ func (c *Warning) Encode
@@ -1186,9 +1242,11 @@ package lnwire
 //@   loop * havoc
 //@   site call WriteBytes nth 0 as layout-enc-0-ChanID: assert arg(1) == sliceof(c.ChanID)
 //@   site call WriteWarningData nth 0 as layout-enc-1-Data: assert arg(1) == c.Data && called(WriteBytes, 0)
+//@   ensures result == nil ==> called(WriteWarningData, 0)
 //@
 //@ func (c *Warning) Decode
 //@   site call ReadElements nth 0 as layout-dec-0: assert len(arg(1)) == 2 && dyndata(arg(1)[0]) == addr(c.ChanID) && dyndata(arg(1)[1]) == addr(c.Data)
+//@   ensures result == nil ==> called(ReadElements, 0)
 //@
 //@ // BOLT 1 ping
 //@ func (p *Ping) Encode
@@ -1196,18 +1254,22 @@ package lnwire
 //@   loop * havoc
 //@   site call WriteUint16 nth 0 as layout-enc-0-NumPongBytes: assert arg(1) == p.NumPongBytes
 //@   site call WritePingPayload nth 0 as layout-enc-1-PaddingBytes: assert arg(1) == p.PaddingBytes && called(WriteUint16, 0)
+//@   ensures result == nil ==> called(WritePingPayload, 0)
 //@
 //@ func (p *Ping) Decode
 //@   site call ReadElements nth 0 as layout-dec-0: assert len(arg(1)) == 2 && dyndata(arg(1)[0]) == addr(p.NumPongBytes) && dyndata(arg(1)[1]) == addr(p.PaddingBytes)
+//@   ensures result == nil ==> called(ReadElements, 0)
 //@
 //@ // BOLT 1 pong
 //@ func (p *Pong) Encode
 //@   props C10
 //@   loop * havoc
 //@   site call WritePongPayload nth 0 as layout-enc-0-PongBytes: assert arg(1) == p.PongBytes
+//@   ensures result == nil ==> called(WritePongPayload, 0)
 //@
 //@ func (p *Pong) Decode
 //@   site call ReadElements nth 0 as layout-dec-0: assert len(arg(1)) == 1 && dyndata(arg(1)[0]) == addr(p.PongBytes)
+//@   ensures result == nil ==> called(ReadElements, 0)
 //@
 //@ // BOLT 4 onion_message
 //@ func (o *OnionMessage) Encode
@@ -1216,10 +1278,12 @@ package lnwire
 //@   site call WritePublicKey nth 0 as layout-enc-0-PathKey: assert arg(1) == o.PathKey
 //@   site call WriteUint16 nth 0 as layout-enc-1-len: assert called(WritePublicKey, 0)
 //@   site call WriteBytes nth 0 as layout-enc-2-OnionBlob: assert arg(1) == o.OnionBlob && called(WriteUint16, 0)
+//@   ensures result == nil ==> called(WriteBytes, 0)
 //@
 //@ func (o *OnionMessage) Decode
 //@   site call ReadElement nth 0 as layout-dec-0: assert dyndata(arg(1)) == addr(o.PathKey)
 //@   site call ReadElement nth 2 as layout-dec-2: assert dyndata(arg(1)) == boxof(o.OnionBlob) && called(ReadElement, 0)
+//@   ensures result == nil ==> called(ReadElement, 2)
 //@
 //@ // lnd taproot-chans kickoff_sig (not a BOLT message)
 //@ func (ks *KickoffSig) Encode
@@ -1228,9 +1292,11 @@ package lnwire
 //@   site call WriteChannelID nth 0 as layout-enc-0-ChanID: assert arg(1) == ks.ChanID
 //@   site call WriteSig nth 0 as layout-enc-1-Signature: assert arg(1) == ks.Signature && called(WriteChannelID, 0)
 //@   site call WriteBytes nth 0 as layout-enc-2-ExtraData: assert arg(1) == ks.ExtraData && called(WriteSig, 0)
+//@   ensures result == nil ==> called(WriteBytes, 0)
 //@
 //@ func (ks *KickoffSig) Decode
 //@   site call ReadElements nth 0 as layout-dec-0: assert len(arg(1)) == 3 && dyndata(arg(1)[0]) == addr(ks.ChanID) && dyndata(arg(1)[1]) == addr(ks.Signature) && dyndata(arg(1)[2]) == addr(ks.ExtraData)
+//@   ensures result == nil ==> called(ReadElements, 0)
 //@
 //@ // lnd dynamic commitments dyn_reject (draft, not a BOLT message)
 //@ func (dr *DynReject) Encode
@@ -1239,9 +1305,11 @@ package lnwire
 //@   site call WriteChannelID nth 0 as layout-enc-0-ChanID: assert arg(1) == dr.ChanID
 //@   site call WriteRawFeatureVector nth 0 as layout-enc-1-UpdateRejections: assert arg(1) == addr(dr.UpdateRejections) && called(WriteChannelID, 0)
 //@   site call WriteBytes nth 0 as layout-enc-2-ExtraData: assert arg(1) == dr.ExtraData && called(WriteRawFeatureVector, 0)
+//@   ensures result == nil ==> called(WriteBytes, 0)
 //@
 //@ func (dr *DynReject) Decode
 //@   site call ReadElements nth 0 as layout-dec-0: assert len(arg(1)) == 3 && dyndata(arg(1)[0]) == addr(dr.ChanID) && dyndata(arg(1)[1]) == addr(dr.UpdateRejections)
+//@   ensures result == nil ==> called(ReadElements, 0)
 //@
 //@ // lnd dynamic commitments dyn_ack (draft)
 //@ func (da *DynAck) Encode
@@ -1250,10 +1318,12 @@ package lnwire
 //@   site call WriteChannelID nth 0 as layout-enc-0-ChanID: assert arg(1) == da.ChanID
 //@   site call WriteSig nth 0 as layout-enc-1-Sig: assert arg(1) == da.Sig && called(WriteChannelID, 0)
 //@   site call WriteBytes nth 0 as layout-enc-2-ExtraData: assert called(WriteSig, 0)
+//@   ensures result == nil ==> called(WriteBytes, 0)
 //@
 //@ func (da *DynAck) Decode
 //@   site call ReadElements nth 0 as layout-dec-0: assert len(arg(1)) == 2 && dyndata(arg(1)[0]) == addr(da.ChanID) && dyndata(arg(1)[1]) == addr(da.Sig)
 //@   site call ReadElement nth 0 as layout-dec-1: assert called(ReadElements, 0)
+//@   ensures result == nil ==> called(ReadElement, 0)
 //@
 //@ // lnd dynamic commitments dyn_commit (draft)
 //@ func (dc *DynCommit) Encode
@@ -1262,10 +1332,12 @@ package lnwire
 //@   site call WriteChannelID nth 0 as layout-enc-0-DynPropose_ChanID: assert arg(1) == dc.DynPropose.ChanID
 //@   site call WriteSig nth 0 as layout-enc-1-Sig: assert arg(1) == dc.Sig && called(WriteChannelID, 0)
 //@   site call WriteBytes nth 0 as layout-enc-2-ExtraData: assert called(WriteSig, 0)
+//@   ensures result == nil ==> called(WriteBytes, 0)
 //@
 //@ func (dc *DynCommit) Decode
 //@   site call ReadElements nth 0 as layout-dec-0: assert len(arg(1)) == 2 && dyndata(arg(1)[0]) == addr(dc.DynPropose.ChanID) && dyndata(arg(1)[1]) == addr(dc.Sig)
 //@   site call ReadElement nth 0 as layout-dec-1: assert called(ReadElements, 0)
+//@   ensures result == nil ==> called(ReadElement, 0)
 //@
 //@ // lnd dynamic commitments dyn_propose (draft)
 //@ func (dp *DynPropose) Encode
@@ -1273,10 +1345,12 @@ package lnwire
 //@   loop * havoc
 //@   site call WriteChannelID nth 0 as layout-enc-0-ChanID: assert arg(1) == dp.ChanID
 //@   site call WriteBytes nth 0 as layout-enc-1-ExtraData: assert called(WriteChannelID, 0)
+//@   ensures result == nil ==> called(WriteBytes, 0)
 //@
 //@ func (dp *DynPropose) Decode
 //@   site call ReadElements nth 0 as layout-dec-0: assert len(arg(1)) == 1 && dyndata(arg(1)[0]) == addr(dp.ChanID)
 //@   site call ReadElements nth 1 as layout-dec-1: assert len(arg(1)) == 1 && called(ReadElements, 0)
+//@   ensures result == nil ==> called(ReadElements, 1)
 //@
 //@ // BOLT 4 incorrect_or_unknown_payment_details
 //@ func (f *FailIncorrectDetails) Encode
@@ -1294,36 +1368,44 @@ package lnwire
 //@   props C10
 //@   loop * havoc
 //@   site call WriteBytes nth 0 as layout-enc-0-OnionSHA256: assert arg(1) == sliceof(f.OnionSHA256)
+//@   ensures result == nil ==> called(WriteBytes, 0)
 //@
 //@ func (f *FailInvalidOnionVersion) Decode
 //@   site call ReadElement nth 0 as layout-dec-0: assert dyndata(arg(1)) == boxof(sliceof(f.OnionSHA256))
+//@   ensures result == nil ==> called(ReadElement, 0)
 //@
 //@ // BOLT 4 invalid_onion_hmac
 //@ func (f *FailInvalidOnionHmac) Encode
 //@   props C10
 //@   loop * havoc
 //@   site call WriteBytes nth 0 as layout-enc-0-OnionSHA256: assert arg(1) == sliceof(f.OnionSHA256)
+//@   ensures result == nil ==> called(WriteBytes, 0)
 //@
 //@ func (f *FailInvalidOnionHmac) Decode
 //@   site call ReadElement nth 0 as layout-dec-0: assert dyndata(arg(1)) == boxof(sliceof(f.OnionSHA256))
+//@   ensures result == nil ==> called(ReadElement, 0)
 //@
 //@ // BOLT 4 invalid_onion_key
 //@ func (f *FailInvalidOnionKey) Encode
 //@   props C10
 //@   loop * havoc
 //@   site call WriteBytes nth 0 as layout-enc-0-OnionSHA256: assert arg(1) == sliceof(f.OnionSHA256)
+//@   ensures result == nil ==> called(WriteBytes, 0)
 //@
 //@ func (f *FailInvalidOnionKey) Decode
 //@   site call ReadElement nth 0 as layout-dec-0: assert dyndata(arg(1)) == boxof(sliceof(f.OnionSHA256))
+//@   ensures result == nil ==> called(ReadElement, 0)
 //@
 //@ // BOLT 4 invalid_onion_blinding
 //@ func (f *FailInvalidBlinding) Encode
 //@   props C10
 //@   loop * havoc
 //@   site call WriteBytes nth 0 as layout-enc-0-OnionSHA256: assert arg(1) == sliceof(f.OnionSHA256)
+//@   ensures result == nil ==> called(WriteBytes, 0)
 //@
 //@ func (f *FailInvalidBlinding) Decode
 //@   site call ReadElement nth 0 as layout-dec-0: assert dyndata(arg(1)) == boxof(sliceof(f.OnionSHA256))
+//@   ensures result == nil ==> called(ReadElement, 0)
 //@
 //@ // BOLT 4 amount_below_minimum
 //@ func (f *FailAmountBelowMinimum) Encode
@@ -1331,9 +1413,11 @@ package lnwire
 //@   loop * havoc
 //@   site call WriteMilliSatoshi nth 0 as layout-enc-0-HtlcMsat: assert arg(1) == f.HtlcMsat
 //@   site call writeOnionErrorChanUpdate nth 0 as layout-enc-1-Update: assert arg(1) == addr(f.Update) && called(WriteMilliSatoshi, 0)
+//@   ensures result == nil ==> called(writeOnionErrorChanUpdate, 0)
 //@
 //@ func (f *FailAmountBelowMinimum) Decode
 //@   site call ReadElement nth 0 as layout-dec-0: assert dyndata(arg(1)) == addr(f.HtlcMsat)
+//@   ensures result == nil ==> called(ReadElement, 0)
 //@
 //@ // BOLT 4 fee_insufficient
 //@ func (f *FailFeeInsufficient) Encode
@@ -1341,9 +1425,11 @@ package lnwire
 //@   loop * havoc
 //@   site call WriteMilliSatoshi nth 0 as layout-enc-0-HtlcMsat: assert arg(1) == f.HtlcMsat
 //@   site call writeOnionErrorChanUpdate nth 0 as layout-enc-1-Update: assert arg(1) == addr(f.Update) && called(WriteMilliSatoshi, 0)
+//@   ensures result == nil ==> called(writeOnionErrorChanUpdate, 0)
 //@
 //@ func (f *FailFeeInsufficient) Decode
 //@   site call ReadElement nth 0 as layout-dec-0: assert dyndata(arg(1)) == addr(f.HtlcMsat)
+//@   ensures result == nil ==> called(ReadElement, 0)
 //@
 //@ // BOLT 4 incorrect_cltv_expiry
 //@ func (f *FailIncorrectCltvExpiry) Encode
@@ -1351,9 +1437,11 @@ package lnwire
 //@   loop * havoc
 //@   site call WriteUint32 nth 0 as layout-enc-0-CltvExpiry: assert arg(1) == f.CltvExpiry
 //@   site call writeOnionErrorChanUpdate nth 0 as layout-enc-1-Update: assert arg(1) == addr(f.Update) && called(WriteUint32, 0)
+//@   ensures result == nil ==> called(writeOnionErrorChanUpdate, 0)
 //@
 //@ func (f *FailIncorrectCltvExpiry) Decode
 //@   site call ReadElement nth 0 as layout-dec-0: assert dyndata(arg(1)) == addr(f.CltvExpiry)
+//@   ensures result == nil ==> called(ReadElement, 0)
 //@
 //@ // BOLT 4 channel_disabled
 //@ func (f *FailChannelDisabled) Encode
@@ -1361,36 +1449,44 @@ package lnwire
 //@   loop * havoc
 //@   site call WriteUint16 nth 0 as layout-enc-0-Flags: assert arg(1) == f.Flags
 //@   site call writeOnionErrorChanUpdate nth 0 as layout-enc-1-Update: assert arg(1) == addr(f.Update) && called(WriteUint16, 0)
+//@   ensures result == nil ==> called(writeOnionErrorChanUpdate, 0)
 //@
 //@ func (f *FailChannelDisabled) Decode
 //@   site call ReadElement nth 0 as layout-dec-0: assert dyndata(arg(1)) == addr(f.Flags)
+//@   ensures result == nil ==> called(ReadElement, 0)
 //@
 //@ // BOLT 4 final_incorrect_cltv_expiry
 //@ func (f *FailFinalIncorrectCltvExpiry) Encode
 //@   props C10
 //@   loop * havoc
 //@   site call WriteUint32 nth 0 as layout-enc-0-CltvExpiry: assert arg(1) == f.CltvExpiry
+//@   ensures result == nil ==> called(WriteUint32, 0)
 //@
 //@ func (f *FailFinalIncorrectCltvExpiry) Decode
 //@   site call ReadElement nth 0 as layout-dec-0: assert dyndata(arg(1)) == addr(f.CltvExpiry)
+//@   ensures result == nil ==> called(ReadElement, 0)
 //@
 //@ // BOLT 4 final_incorrect_htlc_amount
 //@ func (f *FailFinalIncorrectHtlcAmount) Encode
 //@   props C10
 //@   loop * havoc
 //@   site call WriteMilliSatoshi nth 0 as layout-enc-0-IncomingHTLCAmount: assert arg(1) == f.IncomingHTLCAmount
+//@   ensures result == nil ==> called(WriteMilliSatoshi, 0)
 //@
 //@ func (f *FailFinalIncorrectHtlcAmount) Decode
 //@   site call ReadElement nth 0 as layout-dec-0: assert dyndata(arg(1)) == addr(f.IncomingHTLCAmount)
+//@   ensures result == nil ==> called(ReadElement, 0)
 //@
 //@ // BOLT 4 invalid_onion_payload
 //@ func (f *InvalidOnionPayload) Encode
 //@   props C10
 //@   loop * havoc
 //@   site call WriteUint16 nth 0 as layout-enc-1-Offset: assert arg(1) == f.Offset && called(WriteVarInt, 0)
+//@   ensures result == nil ==> called(WriteUint16, 0)
 //@
 //@ func (f *InvalidOnionPayload) Decode
 //@   site call ReadElements nth 0 as layout-dec-0: assert len(arg(1)) == 1 && dyndata(arg(1)[0]) == addr(f.Offset)
+//@   ensures result == nil ==> called(ReadElements, 0)
 //@
 //@
 //@ // dispatch agreement (msgtypes): T.MsgType() == n and makeEmptyMessage(n) builds a *T
